@@ -489,7 +489,7 @@ func encodeAllQuiet(v any) (out []encoded, panicked bool) {
 			panicked = true
 		}
 	}()
-	if m, ok := v.(interface{ TokenReader() xml.TokenReader }); ok {
+	if m, ok := v.(interface{ TokenReader() xml.TokenReader }); ok && !documentedToPanic(v) {
 		b, err := tokensToBytes(m.TokenReader())
 		out = append(out, encoded{"TokenReader", b, err})
 		return out, false
